@@ -78,3 +78,11 @@ func lpObjFile(k func() error) error { return k() }
 //go:noinline
 //line /tmp/pkg/a.b.c/main.lp.go:1
 func lpTwoDots(k func() error) error { return k() }
+
+//go:noinline
+//line /tmp/ain.lp/f.go:180
+func lpInner(k func() error) error { return k() }
+
+//go:noinline
+//line _testmain.go:50
+func lpTestmain(k func() error) error { return k() }
